@@ -3,7 +3,7 @@ from __future__ import annotations
 
 from . import engine as E
 from . import symnp as np
-from .pdcore import (INT_BITS, wrap_int, C_ADD, C_AND, C_DIV, C_EQ, C_FLOORDIV, C_GE, C_GT, C_LE, C_LT, C_MOD, C_MUL, C_NE, C_OR,
+from .pdcore import (np_scalar, INT_BITS, wrap_int, C_ADD, C_AND, C_DIV, C_EQ, C_FLOORDIV, C_GE, C_GT, C_LE, C_LT, C_MOD, C_MUL, C_NE, C_OR,
                      C_SUB, NAN, DType, Index, StrAccessor, _tobool, all_concrete, default_index, hashable_key,
                      infer_dtype, is_na, norm_dtype, same_label, sort_positions, truth)
 
@@ -638,7 +638,7 @@ class Series:
             acc = acc + v
         if self.dtype.name == "float64" and isinstance(acc, int):
             acc = float(acc)
-        return acc
+        return np_scalar(acc)
 
     def count(self):
         return len(self._valid())
